@@ -125,6 +125,7 @@ theorem step_isHeap {s s' : St} (a : Act) (hh : IsHeap less s.heap) (hs : step? 
         | exact hpush _
         | exact isHeap_nil
         | (rw [toDrain_heap]; exact isHeap_nil)
+        | exact adjustAll_isHeap s _ hh
         | exact (pop_isHeap (adjustAll_isHeap s _ hh) ‹_›).1
         | (obtain ⟨hi, _⟩ := idxOf_some ‹_›; exact adjustAll_isHeap s _ (fix_spec strictWeak_less _ hh _ hi _).1)
         | (obtain ⟨_, _, h3, _⟩ := remove_some hh ‹_›; exact adjustAll_isHeap s _ h3))
